@@ -51,6 +51,10 @@ Print Assumptions C09_exp_angle.
 Theorem C09_log_exp : forall v : V3R, theta v < PI -> so3_logR (so3_expR v) = v.
 Proof. exact so3_log_exp. Qed.
 Print Assumptions C09_log_exp.
+(* exp o log = id on every rotation whose angle is not pi (cos_angle = -1 is the cut locus of the logarithm) *)
+Theorem C09_exp_log : forall r : M3R, SO3 r -> cos_angle r <> -1 -> so3_expR (so3_logR r) = r.
+Proof. exact so3_exp_log. Qed.
+Print Assumptions C09_exp_log.
 Theorem C09_exp_neg_is_inverse : forall v : V3R, mt (so3_expR v) = so3_expR (vopp v).
 Proof. exact so3_exp_neg. Qed.
 Print Assumptions C09_exp_neg_is_inverse.
